@@ -69,7 +69,14 @@ const (
 	pPost
 	pAssert
 	pBoth
+	pXBasic  // Basic X:secret(X) + client_id=Y
+	pXAssert // assertion of X + client_id=Y
+	pXPost   // form client_id=X, client_secret=secret(X) + Basic Y:wrong
+	pXPostID // form client_id=Y, client_secret=secret(X)
 )
+
+var crossN = map[int]string{pXBasic: "PXBasic", pXAssert: "PXAssert", pXPost: "PXPost", pXPostID: "PXPostId"}
+var crossT = map[int]string{pXBasic: "cross_basic", pXAssert: "cross_assertion", pXPost: "cross_post_basic_other", pXPostID: "cross_post_other_id"}
 
 type cfgT struct{ Post, PKJWT, Refresh, CC, TE, Dev bool }
 
@@ -125,8 +132,10 @@ func (p presT) coq() string {
 		return emit.Ctor("PPost", secN[p.P])
 	case pAssert:
 		return emit.Ctor("PAssert", assN[p.A])
+	case pBoth:
+		return emit.Ctor("PBoth", secN[p.B], secN[p.P])
 	}
-	return emit.Ctor("PBoth", secN[p.B], secN[p.P])
+	return crossN[p.Kind]
 }
 func (p presT) tag() string {
 	switch p.Kind {
@@ -146,6 +155,8 @@ func (p presT) tag() string {
 		return "post_" + strings.ToLower(secN[p.P][1:])
 	case pAssert:
 		return "assertion_" + strings.ToLower(assN[p.A][1:])
+	case pXBasic, pXAssert, pXPost, pXPostID:
+		return crossT[p.Kind]
 	}
 	return "both_" + strings.ToLower(secN[p.B][1:]) + "_" + strings.ToLower(secN[p.P][1:])
 }
@@ -246,6 +257,7 @@ type outcome struct {
 	Panic  string
 	Writes int
 	Body   string
+	Who    string // client id the answer acted for ("" = nobody)
 }
 
 // run prepares the grant artefacts of one case in the store, sends the request and projects the answer.
@@ -260,6 +272,24 @@ func run(c caseT) outcome {
 	if !hasSecret {
 		stored = "\x00no-secret-" + id // storage contract: a client without a registered secret never passes the secret check
 		secret = "decoy-secret"
+	}
+	// every case starts from an empty store (the fixture keeps keys and users)
+	st.Clients = map[string]*refstore.Client{}
+	st.Tokens, st.Refresh = map[string]*refstore.Token{}, map[string]*refstore.RefreshToken{}
+	st.AuthReqs, st.Codes = map[string]*refstore.AuthRequest{}, map[string]string{}
+	st.Devices, st.UserCode = map[string]*refstore.Device{}, map[string]string{}
+	// cross-client presentations: a second, confidential client Y owns the grant artefact
+	cross := c.Pres.Kind >= pXBasic
+	vid := "v" + id
+	owner := id
+	if cross {
+		owner = vid
+		v := &refstore.Client{ID: vid, Secret: "sec-" + vid, Redirects: []string{redirectURI}, App: op.ApplicationTypeWeb, Auth: oidc.AuthMethodBasic,
+			RespTypes: []oidc.ResponseType{oidc.ResponseTypeCode}, ATType: op.AccessTokenTypeBearer}
+		for i := 0; i < 7; i++ {
+			v.Grants = append(v.Grants, oidc.GrantType(grantV[i]))
+		}
+		st.Clients[vid] = v
 	}
 	if c.Reg.Known {
 		cl := &refstore.Client{ID: id, Secret: stored, Redirects: []string{redirectURI}, App: appV[c.Reg.App], Auth: methV[c.Reg.Meth],
@@ -279,7 +309,7 @@ func run(c caseT) outcome {
 	path := ""
 	rt := "rt-" + id
 	newRefresh := func() {
-		st.Refresh[rt] = &refstore.RefreshToken{ID: rt, ClientID: id, Subject: "alice", Audience: []string{id}, Scopes: []string{"openid"},
+		st.Refresh[rt] = &refstore.RefreshToken{ID: rt, ClientID: owner, Subject: "alice", Audience: []string{owner}, Scopes: []string{"openid"},
 			AMR: []string{"pwd"}, AuthTime: now.Add(-time.Minute).Truncate(time.Second), Expiration: now.Add(time.Hour)}
 	}
 	switch c.Endpoint {
@@ -291,7 +321,7 @@ func run(c caseT) outcome {
 		switch c.Grant {
 		case gCode:
 			rid := "req-" + id
-			st.AuthReqs[rid] = &refstore.AuthRequest{ID: rid, ClientID: id, RedirectURI: redirectURI, Scopes: []string{"openid"},
+			st.AuthReqs[rid] = &refstore.AuthRequest{ID: rid, ClientID: owner, RedirectURI: redirectURI, Scopes: []string{"openid"},
 				ResponseType: oidc.ResponseTypeCode, Subject: "alice", IsDone: true, AuthTime: now.Add(-time.Minute).Truncate(time.Second),
 				CodeChallenge: &oidc.CodeChallenge{Challenge: opfix.S256(verifier), Method: oidc.CodeChallengeMethodS256}, Nonce: "n"}
 			st.Codes["code-"+id] = rid
@@ -312,7 +342,7 @@ func run(c caseT) outcome {
 			form.Set("subject_token_type", string(oidc.RefreshTokenType))
 		case gDevice:
 			dc, uc := "dc-"+id, "UC-"+id
-			st.Devices[dc] = &refstore.Device{DeviceCode: dc, UserCode: uc, State: &op.DeviceAuthorizationState{ClientID: id, Scopes: []string{"openid"},
+			st.Devices[dc] = &refstore.Device{DeviceCode: dc, UserCode: uc, State: &op.DeviceAuthorizationState{ClientID: owner, Scopes: []string{"openid"},
 				Expires: now.Add(time.Hour), Done: true, Subject: "alice", AMR: []string{"pwd"}, AuthTime: now.Add(-time.Minute).Truncate(time.Second)}}
 			st.UserCode[uc] = dc
 			form.Set("device_code", dc)
@@ -320,7 +350,7 @@ func run(c caseT) outcome {
 	case eIntrospect:
 		path = "/oauth/introspect"
 		at := "at-" + id
-		st.Tokens[at] = &refstore.Token{ID: at, ClientID: id, Subject: "alice", Audience: []string{id}, Scopes: []string{"openid"}, Expiration: now.Add(time.Hour)}
+		st.Tokens[at] = &refstore.Token{ID: at, ClientID: owner, Subject: "alice", Audience: []string{owner}, Scopes: []string{"openid"}, Expiration: now.Add(time.Hour)}
 		tok, err := w.f.Provider.Crypto().Encrypt(at + ":alice")
 		if err != nil {
 			panic(err)
@@ -375,6 +405,20 @@ func run(c caseT) outcome {
 		basicID, basicSec, useBasic = id, sec(c.Pres.B), true
 		form.Set("client_id", id)
 		form.Set("client_secret", sec(c.Pres.P))
+	case pXBasic:
+		basicID, basicSec, useBasic = id, secret, true
+		form.Set("client_id", vid)
+	case pXAssert:
+		form.Set("client_assertion_type", oidc.ClientAssertionTypeJWTAssertion)
+		form.Set("client_assertion", signAssertion(rightKey, id, []string{opfix.Issuer}))
+		form.Set("client_id", vid)
+	case pXPost:
+		basicID, basicSec, useBasic = vid, "wrong-secret", true
+		form.Set("client_id", id)
+		form.Set("client_secret", secret)
+	case pXPostID:
+		form.Set("client_id", vid)
+		form.Set("client_secret", secret)
 	}
 	req := httptest.NewRequest(http.MethodPost, opfix.Issuer+path, strings.NewReader(form.Encode()))
 	req.Header.Set("Content-Type", "application/x-www-form-urlencoded")
@@ -402,6 +446,32 @@ func run(c caseT) outcome {
 	}
 	if c.Endpoint == eRevoke && !st.RefreshLive(rt) {
 		o.Act = true
+	}
+	// whom did the answer act for: the owner of a token or device code it created, of the token it
+	// revoked, of the token it reported active
+	for tid, t := range st.Tokens {
+		if tid != "at-"+id {
+			o.Who = t.ClientID
+			if o.Who == "" {
+				o.Who = t.Subject // jwt-bearer: the token belongs to the assertion's issuer
+			}
+		}
+	}
+	for dcode, d := range st.Devices {
+		if dcode != "dc-"+id {
+			o.Who = d.State.ClientID
+		}
+	}
+	if o.Who == "" && o.Act {
+		o.Who = owner
+	}
+	switch o.Who {
+	case "":
+		o.Who = "WNone"
+	case id:
+		o.Who = "WSelf"
+	default:
+		o.Who = "WOther"
 	}
 	return o
 }
@@ -441,7 +511,7 @@ func (o outcome) coq() string {
 			e = "EOther"
 		}
 	}
-	return emit.Ctor("ORes", cls, e, emit.Bool(o.Tok), emit.Bool(o.Act))
+	return emit.Ctor("ORes", cls, e, emit.Bool(o.Tok), emit.Bool(o.Act), o.Who)
 }
 
 // ---------------------------------------------------------------- generation
@@ -457,6 +527,7 @@ func allPres() []presT {
 	for a := 0; a < 3; a++ {
 		ps = append(ps, presT{Kind: pAssert, A: a})
 	}
+	ps = append(ps, presT{Kind: pXBasic}, presT{Kind: pXAssert}, presT{Kind: pXPost}, presT{Kind: pXPostID})
 	return ps
 }
 
@@ -571,6 +642,38 @@ func directed() []caseT {
 	return cs
 }
 
+// systematic: run in both tiers. (1) every router x endpoint/grant x auth method x application type with
+// everything enabled and registered, once with the credential fitting the method and once with client_id only;
+// (2) every router x endpoint/grant x cross-client presentation for a basic and a private_key_jwt client X.
+func systematic() []caseT {
+	allOn := cfgT{true, true, true, true, true, true}
+	var cs []caseT
+	type eg struct{ e, g int }
+	egs := []eg{{eToken, gCode}, {eToken, gRefresh}, {eToken, gCC}, {eToken, gBearer}, {eToken, gTE}, {eToken, gDevice},
+		{eIntrospect, gMissing}, {eRevoke, gMissing}, {eDeviceAuthz, gMissing}}
+	fitting := []presT{{Kind: pBasic}, {Kind: pPost}, {Kind: pAssert}, {Kind: pIDOnly}}
+	for router := 0; router < 2; router++ {
+		for _, x := range egs {
+			for meth := 0; meth < 4; meth++ {
+				for app := 0; app < 3; app++ {
+					rg := regT{Known: true, Meth: meth, App: app, Grants: full(), HasKey: meth == 2}
+					cs = append(cs, caseT{Router: router, Endpoint: x.e, Grant: x.g, Cfg: allOn, Reg: rg, Pres: fitting[meth], Tag: "block=method_x_app"})
+					if meth != 3 {
+						cs = append(cs, caseT{Router: router, Endpoint: x.e, Grant: x.g, Cfg: allOn, Reg: rg, Pres: presT{Kind: pIDOnly}, Tag: "block=method_x_app"})
+					}
+				}
+			}
+			for _, k := range []int{pXBasic, pXAssert, pXPost, pXPostID} {
+				for _, meth := range []int{0, 2} {
+					rg := regT{Known: true, Meth: meth, App: 0, Grants: full(), HasKey: true}
+					cs = append(cs, caseT{Router: router, Endpoint: x.e, Grant: x.g, Cfg: allOn, Reg: rg, Pres: presT{Kind: k}, Tag: "block=cross_client"})
+				}
+			}
+		}
+	}
+	return cs
+}
+
 // enumerate: the whole cross product with two reductions that lose no decision: of the grant set only the
 // membership of the grant at stake is enumerated (the other six are drawn), and of the six switches the three
 // provider flags are enumerated while the capability at stake is enumerated and the other two are drawn.
@@ -639,9 +742,12 @@ func main() {
 			o.Panic = p
 		}
 		w.Add(emit.Case{Input: c.coq(), Observed: o.coq(), Tags: c.tags(),
-			Human: map[string]any{"status": o.Status, "error": strings.TrimPrefix(o.Err, "\x00"), "token": o.Tok, "active_or_revoked": o.Act, "panic": o.Panic, "body": o.Body}})
+			Human: map[string]any{"status": o.Status, "error": strings.TrimPrefix(o.Err, "\x00"), "token": o.Tok, "active_or_revoked": o.Act, "panic": o.Panic, "body": o.Body, "acted_for": o.Who}})
 	}
 	for _, c := range directed() {
+		add(c)
+	}
+	for _, c := range systematic() {
 		add(c)
 	}
 	exhaustive := false
@@ -655,7 +761,7 @@ func main() {
 		enumerate(r, add)
 	}
 	err := w.Close(emit.Meta{Property: "C05", Tier: cfg.Tier, Seed: cfg.Seed, Exhaustive: exhaustive,
-		Rule: "one HTTP request per case against the Provider or the LegacyServer router over refstore, with an otherwise valid grant (code+PKCE, refresh token, device code, subject token, key-signed assertion) prepared in the store for the case's client; varied: registration (auth method, grant set, app type, key, known), presented credential (16 forms), grant_type (9), provider flags and storage capabilities (6 switches), endpoint (4). quick: directed defect inputs + random draws (fitting credential half of the time); thorough: the cross product, enumerating of the grant set only the membership of the grant at stake, of the six switches the three flags and the capability at stake, and drawing the application type. Non-trivial = model path class != 0 (the request got past the first guard of its handler); distinct = distinct (input, path class).",
+		Rule: "one HTTP request per case against the Provider or the LegacyServer router over refstore, with an otherwise valid grant (code+PKCE, refresh token, device code, subject token, key-signed assertion) prepared in an emptied store for the case's client X - or, for the four cross-client presentations, for a second confidential client Y whose id the request mixes with X's valid credential; varied: registration (auth method, grant set, app type, key, known), presented credential (20 forms), grant_type (9), provider flags and storage capabilities (6 switches), endpoint (4); observed also: the client the answer acted for (owner of the created token / device code, of the revoked or active token). Both tiers: directed defect inputs + systematic blocks (router x endpoint/grant x auth method x application type with fitting credential and with client_id only; router x endpoint/grant x cross-client presentation). quick: + random draws (fitting credential half of the time); thorough: + the cross product, enumerating of the grant set only the membership of the grant at stake, of the six switches the three flags and the capability at stake, and drawing the application type. Non-trivial = model path class != 0 (the request got past the first guard of its handler); distinct = distinct (input, path class).",
 	})
 	if err != nil {
 		fmt.Fprintln(os.Stderr, err)
